@@ -11,7 +11,7 @@ Driver for C11.  Protocol (one case):
        io0      : `<inputs>,<outputs>,<memory>` sizes before the apply
        tasks0   : `,`-separated hex task names registered before the apply | `-`
   bytes <hex>                     the container under test
-  decode | validate | metadata | apply <hex resource name|none> | mem | emitted
+  decode | validate | metadata | apply <hex resource name|none> | mem | emitted | emitfail <hex source>
   impl <...>                      (ignored here)
   end
 For every op with an `impl` line the model prints `m <answer>` (formats in `harness/src/c11.rs`).
@@ -249,6 +249,9 @@ def step (st : St) (line : String) : St × Option String :=
         | some e => s!"err {showApplyErr e}"
       (st, some s!"m {head} io={io.1},{io.2.1},{io.2.2} tasks={if tasks.isEmpty then "-" else joinWith "," (tasks.map hexOf)}")
   | ["mem"] => (st, some "m ok")
+  -- the encoder returned an error for a program the compiler front end accepted: the model of the
+  -- property has no such outcome ("every container the compiler emits validates")
+  | ["emitfail", _] => (st, some "m never")
   | ["emitted"] =>
     let (st, d) := getDecoded st
     match d with
